@@ -63,7 +63,7 @@ func (h *StreamHandler) validateCommon(meta *TransferMetadata) error {
 	if err := h.authenticate(meta.Password); err != nil {
 		return err
 	}
-	return h.validatePath(meta.Path)
+	return h.validateResolvedPath(meta.Path, true)
 }
 
 // ValidateUploadMetadata validates upload metadata and returns an error if invalid.
@@ -134,6 +134,70 @@ func (h *StreamHandler) validateSymlinkTarget(path string) error {
 	return nil
 }
 
+// validateResolvedPath validates path lexically and then again after resolving the
+// symbolic links of its longest existing prefix, so that a link anywhere in the path
+// (a parent directory, or the final component when followLast is set) cannot lead
+// outside the allowed paths. Operations that act on a link itself (stat, delete) pass
+// followLast=false.
+func (h *StreamHandler) validateResolvedPath(path string, followLast bool) error {
+	if err := h.validatePath(path); err != nil {
+		return err
+	}
+	clean := filepath.Clean(path)
+	resolved, err := resolveExisting(clean, followLast)
+	if err != nil {
+		return fmt.Errorf("cannot resolve symlink: %w", err)
+	}
+	if resolved == clean {
+		return nil
+	}
+	if err := h.validatePath(resolved); err != nil && !h.allowedViaResolvedBase(resolved) {
+		return fmt.Errorf("symlink target not allowed: %w", err)
+	}
+	return nil
+}
+
+// allowedViaResolvedBase reports whether resolved is allowed by a pattern whose base
+// directory is itself configured through a symlink (e.g. /tmp or /var on macOS).
+func (h *StreamHandler) allowedViaResolvedBase(resolved string) bool {
+	for _, pattern := range h.cfg.AllowedPaths {
+		base := patternBaseDir(pattern)
+		realBase, err := filepath.EvalSymlinks(base)
+		if pattern == "*" || err != nil || realBase == base {
+			continue
+		}
+		if isPathAllowed(resolved, realBase+strings.TrimPrefix(normalizePath(pattern), base)) {
+			return true
+		}
+	}
+	return false
+}
+
+// resolveExisting resolves the symbolic links in the longest existing prefix of path and
+// appends the components that do not exist yet. With followLast=false the final
+// component is kept as is. A dangling link is an error: creating a file through it
+// would create the link's target.
+func resolveExisting(path string, followLast bool) (string, error) {
+	if !followLast {
+		dir, err := resolveExisting(filepath.Dir(path), true)
+		return filepath.Join(dir, filepath.Base(path)), err
+	}
+	rest := ""
+	for cur := path; ; cur = filepath.Dir(cur) {
+		resolved, err := filepath.EvalSymlinks(cur)
+		if err == nil {
+			return filepath.Join(resolved, rest), nil
+		}
+		if fi, lerr := os.Lstat(cur); lerr == nil && fi.Mode()&os.ModeSymlink != 0 {
+			return "", fmt.Errorf("dangling symlink: %s", cur)
+		}
+		if !os.IsNotExist(err) || filepath.Dir(cur) == cur {
+			return "", err
+		}
+		rest = filepath.Join(filepath.Base(cur), rest)
+	}
+}
+
 // authenticate checks if the password is correct.
 func (h *StreamHandler) authenticate(password string) error {
 	if h.cfg.PasswordHash == "" {
@@ -174,8 +238,8 @@ func normalizePath(path string) string {
 // isPathUnderPrefix checks if path is exactly prefix or is under prefix directory.
 // This prevents prefix bypass attacks like /var/wwwevil matching /var/www.
 func isPathUnderPrefix(path, prefix string) bool {
-	// Normalize both paths
-	cleanPath := normalizePath(path)
+	// Normalize the prefix; the caller decides which form of the path to test
+	cleanPath := filepath.Clean(path)
 	cleanPrefix := normalizePath(prefix)
 
 	// Exact match
@@ -232,7 +296,9 @@ func (h *StreamHandler) validatePath(path string) error {
 		if pattern == "*" {
 			return nil
 		}
-		if isPathAllowed(normalizedPath, pattern) {
+		// The file operations use the path as given, and most filesystems do not
+		// normalize names: the un-normalized form must be allowed as well.
+		if isPathAllowed(normalizedPath, pattern) && isPathAllowed(filepath.Clean(path), pattern) {
 			return nil
 		}
 	}
